@@ -304,22 +304,22 @@ func (s *isoState) iso(a, b starlark.Value, path string) error {
 	case starlark.Int:
 		bb, ok := b.(starlark.Int)
 		if !ok || a.BigInt().Cmp(bb.BigInt()) != 0 {
-			return fmt.Errorf("%s: int %v vs %s %v", path, a, b.Type(), trunc(b.String()))
+			return fmt.Errorf("%s: int %v vs %s %v", path, a, b.Type(), Describe(b))
 		}
 	case starlark.Float:
 		bb, ok := b.(starlark.Float)
 		if !ok || math.Float64bits(float64(a)) != math.Float64bits(float64(bb)) {
-			return fmt.Errorf("%s: float %v vs %s %v", path, a, b.Type(), trunc(b.String()))
+			return fmt.Errorf("%s: float %v vs %s %v", path, a, b.Type(), Describe(b))
 		}
 	case starlark.String:
 		bb, ok := b.(starlark.String)
 		if !ok || a != bb {
-			return fmt.Errorf("%s: string len %d vs %s %s", path, len(a), b.Type(), trunc(b.String()))
+			return fmt.Errorf("%s: string len %d vs %s %s", path, len(a), b.Type(), Describe(b))
 		}
 	case starlark.Bytes:
 		bb, ok := b.(starlark.Bytes)
 		if !ok || a != bb {
-			return fmt.Errorf("%s: bytes len %d vs %s %s", path, len(a), b.Type(), trunc(b.String()))
+			return fmt.Errorf("%s: bytes len %d vs %s %s", path, len(a), b.Type(), Describe(b))
 		}
 	case starlark.Tuple:
 		bb, ok := b.(starlark.Tuple)
@@ -439,6 +439,15 @@ func describe(b *strings.Builder, v starlark.Value, seen map[starlark.Value]bool
 	if b.Len() > 500 {
 		return
 	}
+	if v == nil {
+		b.WriteString("<nil>")
+		return
+	}
+	if depth > 40 {
+		// a decoded value can be cyclic through a tuple if the decoder is broken
+		b.WriteString("<deeper…>")
+		return
+	}
 	switch v := v.(type) {
 	case starlark.Tuple:
 		fmt.Fprintf(b, "tuple%d(", len(v))
@@ -507,7 +516,9 @@ func describe(b *strings.Builder, v starlark.Value, seen map[starlark.Value]bool
 		} else {
 			fmt.Fprintf(b, "b%q", string(v))
 		}
-	default:
+	case starlark.NoneType, starlark.Bool, starlark.Int, starlark.Float:
 		b.WriteString(trunc(v.String()))
+	default:
+		b.WriteString("<" + v.Type() + ">")
 	}
 }
